@@ -163,8 +163,6 @@ Extraction "model.ml"
   GfmFilter.gfm_filter
   GfmFilter.lt_escape_first
   GfmFilter.any_disallowed
-  GfmFilter.disallowed_at_narrow
-  GfmFilter.gfm_filter_narrow
   GfmFilter.lt_expansion
   Shape.s2
   Shape.s3
